@@ -141,13 +141,33 @@ NOT_APPLICABLE = {
 }
 
 
+# bounds added after the first version of each check (the full, current list is in harness/cNN.py: META and in each evidence file)
+EXTENDED = {
+    "C01": "Also: sparse, non-contiguous and multi-digit atom numbers.",
+    "C03": "Also: explicit-hydrogen mode on seven concrete families and on symbolic reactions with <=2 heavy atoms and <=3 explicit hydrogens (incl. H-H, free protons/hydrides, full-ITS templates, a duplicated one-atom molecule); templates with one wildcard atom on substrates whose ids may have gaps. partial=True is outside.",
+    "C04": "Also: symmetric-centre families ([2+2], allylic shift, Diels-Alder); explicit-hydrogen branch: concrete families (incl. reductive amination backwards, N-N coupling under template renumbering) and symbolic reactions with <=2 (3) heavy atoms and <=3 explicit hydrogens incl. free protons/hydrides; 'among the results' = mapped ITS isomorphic or, failing that, same unmapped sides. partial=True is outside.",
+    "C05": "Also: [2+2] with neighbouring substituents backwards (cycloreversion), rule-object re-use.",
+    "C06": "Also: charges {-2,-1} (labels with colliding hashes), two-host histories.",
+    "C07": "Also: five-atom hosts against 3/4-atom patterns and the two equal-degree-sequence five-atom pairs for the filters; graph_morphism.find_graph_isomorphism with the invariant pre-check on/off; charges {-2,-1}.",
+    "C08": "Also: rule-like graphs with pair-valued orders, the six-atom bicyclopropyl dimer under every numbering, charges {-2,-1}, in-place edits with a re-used canonicaliser.",
+    "C09": "Also: the canonical string is observed through an opaque serialiser stub; same-instance calls.",
+    "C11": "Also: charges {-2,-1} on 2-3 atoms; de-duplication incl. the host_anchor argument; [2+2] families forwards/backwards.",
+    "C13": "Also: charges {-2,-1}, P4 / C5 lists with a fixed number of double bonds, classifier re-use.",
+    "C14": "Also: batched clustering (harness shared with C13) on five lists incl. a 4-item same-attribute list and a solver-chosen, possibly empty attribute; a repeated batch entry on which two rules fire.",
+    "C15": "Also: the merged-in network carries two reactions of one rule; a chain of 8-11 merged reactions.",
+    "C16": "Also: include_isolated_species on/off with integer and string ids.",
+    "C18": "Also: three concrete symmetric networks (2x2 conversions, 2-ring + 3-ring, two reversible pairs joined) under every renaming (thorough: every reaction order).",
+    "C20": "Also: max_size, PetriAnalyzer wrapper, re-used PathwayRealizability object, unimolecular 3x3 (thorough 4x3) nets.",
+}
+
+
 def main():
     def chk(pid, text, note):
         return dict(property_id=pid, quick_cmd="./check %s --tier quick" % pid,
                     thorough_cmd="./check %s --tier thorough" % pid, evidence_file="evidence/%s.json" % pid,
                     replay_cmd_template="./check --replay {path}", engine="symx",
                     level_claimed=dict(category="model_checking", text=text, design_ref="DESIGN.md §5 " + pid),
-                    level_note=note, technique=TECH)
+                    level_note=note + (" " + EXTENDED[pid] if pid in EXTENDED else ""), technique=TECH)
 
     na = [dict(property_id=k, reason=v) for k, v in NOT_APPLICABLE.items()]
     for i in range(1, 21):
